@@ -887,6 +887,19 @@ def lower(facts, e):
                     return _synth_phi([(o, (d, frozenset({1}))), (alt, (d, frozenset({0})))])
             if name == 'or' and is_opt and len(e[2]) == 2:
                 return _synth_phi([(o, (d, frozenset({1}))), (e[2][1], (d, frozenset({0})))])
+            if name in ('ok_or_else', 'ok_or') and is_opt and len(e[2]) == 2:     # Some(v) -> Ok(v), None -> Err(f())
+                err = apply_closure(facts, e[2][1], []) if name == 'ok_or_else' else e[2][1]
+                if err is not None:
+                    return _synth_phi([(('aggr', 'core::result::Result::Ok', [_payload(o, 'Some')], []), (d, frozenset({1}))),
+                                       (('aggr', 'core::result::Result::Err', [err], []), (d, frozenset({0})))])
+            if name == 'map' and len(e[2]) == 2:                                # Some(v) -> Some(f(v)); Ok(v) -> Ok(f(v))
+                r = apply_closure(facts, e[2][1], [_payload(o, some)])
+                if r is not None:
+                    if is_opt:
+                        return _synth_phi([(('aggr', 'core::option::Option::Some', [r], []), (d, frozenset({1}))),
+                                           (('aggr', 'core::option::Option::None', [], []), (d, frozenset({0})))])
+                    return _synth_phi([(('aggr', 'core::result::Result::Ok', [r], []), (d, frozenset({0}))),
+                                       (('aggr', 'core::result::Result::Err', [_payload(o, 'Err')], []), (d, frozenset({1})))])
             if name == 'and_then' and is_opt and len(e[2]) == 2:                # and_then(f): None -> None, Some(v) -> f(v)
                 r = apply_closure(facts, e[2][1], [_payload(o, 'Some')])
                 if r is not None:
@@ -904,6 +917,24 @@ def norm_cond(d, v):
         x = ds[1]
         while x[0] in ('ref', 'deref'):
             x = x[1]
+        if x[0] == 'phi' and x[1] is None and x[4] and all(isinstance(w, tuple) and w and w[0] == 'cond' for w in x[4]):
+            # discriminant of a lowered combinator value: phi(None{} when c0 | Some{..} when c1) is Some exactly when c1
+            DV = {'Option::None': 0, 'Option::Some': 1, 'Result::Ok': 0, 'Result::Err': 1}
+            sel = []
+            for br, w in zip(x[2], x[4]):
+                b0 = br
+                while b0[0] in ('ref', 'deref'):
+                    b0 = b0[1]
+                dv = DV.get('::'.join(str(b0[1]).split('::')[-2:])) if b0[0] == 'aggr' else None
+                if dv is None:
+                    return d, v
+                takes = (dv not in v[1]) if isinstance(v, tuple) else (dv in v)
+                if takes:
+                    sel.append(w)
+            if len(sel) != 1:
+                return d, v
+            d, v = sel[0][1], sel[0][2]
+            continue
         if x[0] != 'call' or not x[2]:
             return d, v
         path = x[1]
